@@ -154,4 +154,24 @@ def rule_collectors(ctx):
                       'the directory walk can start before the repositories/modules used in this run were added to the retain set', loc=w.loc())
 
 
-RULES = [rule_gates, rule_points, rule_dir_tree, rule_collectors]
+def rule_retain_keys_canonical(ctx):
+    """The retain set is looked up with the (lower-case) directory names of the collector: it must be keyed by the canonical
+    authority / canonical URI parts, like the paths are (C30)."""
+    import re as _re
+    n = 0
+    raw = []
+    for b in ctx.facts.all_bodies():
+        if not _re.match(r'^collector::rsync::ModuleSet::', b.nid) or b.rec.get('derive'):
+            continue
+        ctx.bodies.add(b.nid)
+        n += len(b.calls('rpki::uri::Rsync::canonical_authority'))
+        raw += [(b, x) for x in b.calls('rpki::uri::Rsync::authority')]
+    ctx.floor('K3', 'canonical_authority uses in ModuleSet', n, 1)
+    ctx.check(not raw, 'K3', 'ModuleSet:keys-canonical',
+              'ModuleSet is keyed by Rsync::canonical_authority only',
+              'collector::rsync::ModuleSet uses the raw Rsync::authority() (%s): modules are stored under the lower-cased host and '
+              'cleanup looks those directory names up in the retain set, so a retained publication point with a mixed-case host is '
+              'not found and its module directory is deleted' % [x[0].nid for x in raw], loc=raw[0][1].loc() if raw else None)
+
+
+RULES = [rule_retain_keys_canonical, rule_gates, rule_points, rule_dir_tree, rule_collectors]
